@@ -1,5 +1,6 @@
 import TlxVerif.Props.C09
 #print axioms TlxVerif.C09.start_TInv
+#print axioms TlxVerif.C09.startPerm_TInv
 #print axioms TlxVerif.C09.replace_TInv
 #print axioms TlxVerif.C09.winner_guarded
 #print axioms TlxVerif.C09.winner_unguarded
@@ -12,3 +13,4 @@ import TlxVerif.Props.C09
 #print axioms TlxVerif.C09.replay_leaf
 #print axioms TlxVerif.C09.stepOK
 #print axioms TlxVerif.C09.initOK
+#print axioms TlxVerif.C09.source_types_ok
